@@ -69,9 +69,12 @@ def repo_with_extras(s, rng, cs, n_targets, delegated, extras_on=True):
     if delegated:
         b = s.targets(version=2, targets=entries("a/b/", 1), sigs=scen.valid([8]), extra=x("b"))
         a = s.targets(version=3, targets=entries("a/", 2), sigs=scen.valid([7]), extra=x("a"),
-                      delegations={"keys": [8], "roles": [{"name": "B", "keyids": [8], "threshold": 1, "paths": ["a/b/*"]}]})
+                      delegations={"keys": [8], "roles": [{"name": "B", "keyids": [8], "threshold": 1, "paths": ["a/b/*"],
+                                                           "terminating": rng.random() < 0.3}]})
         dl = [("A", 3, a), ("B", 2, b)]
-        deleg = {"keys": [7], "roles": [{"name": "A", "keyids": [7], "threshold": 1, "paths": ["a/*"]}]}
+        # the "terminating" flag of a delegation is data to carry over: it must not change what an update writes
+        term = rng.random() < 0.5
+        deleg = {"keys": [7], "roles": [{"name": "A", "keyids": [7], "threshold": 1, "paths": ["a/*"], "terminating": term}]}
     tgt = s.targets(version=1, targets=entries("t", n_targets), delegations=deleg, extra=x("targets"))
     metas = {"targets.json": scen.meta(tgt, 1)}
     for name, v, d in dl:
